@@ -144,8 +144,25 @@ func waitUntil(cond func() bool, max time.Duration) bool {
 // receivers, so the outcome is determined: each channel holds exactly the events
 // published while it was subscribed, in order, and is closed iff it was removed.
 func c10sweep(c *core.Ctx, first int) {
-	const nOps = 8
-	names := []string{"SubBuf(16)", "Unsub(oldest)", "Unsub(newest)", "Unsub(removed)", "UnsubAll", "PubSync", "PubSliceSync(2)", "PubWait"}
+	// the sweep runs on a goroutine of its own: a call that never returns (everything parked
+	// for good) is a verdict about the history being executed, not a watchdog matter
+	var cur atomic.Value
+	var wg sync.WaitGroup
+	wg.Add(1)
+	go func() { defer wg.Done(); c10sweepBody(c, first, &cur) }()
+	if st, where := core.WaitOrDeadlock(&wg, 5*time.Second, 100*time.Second); st != "done" {
+		h, _ := cur.Load().([]string)
+		if st == "deadlock" {
+			c.Violate("sweep:call-never-returns", fmt.Sprintf("a sequential call on a PubSub with buffered subscriptions never returns: every goroutine is parked for good (%s) [exhaustive sequential sweep, calls so far %v]", where, h), map[string]any{"history": h})
+		} else {
+			c.Inconclusive("the sequential sweep did not finish within the watchdog (no deadlock proven)")
+		}
+	}
+}
+
+func c10sweepBody(c *core.Ctx, first int, cur *atomic.Value) {
+	const nOps = 9
+	names := []string{"SubBuf(16)", "Unsub(oldest)", "Unsub(newest)", "Unsub(removed)", "UnsubAll", "PubSync", "PubSliceSync(2)", "PubWait", "empty batches (PubSlice, PubSliceWait, PubSliceSync)"}
 	seqs := 0
 	type sub struct {
 		ch     <-chan int
@@ -186,6 +203,7 @@ func c10sweep(c *core.Ctx, first int) {
 					x /= nOps
 				}
 				hist = append(hist, names[op])
+				cur.Store(append([]string(nil), hist...))
 				lv := live()
 				switch op {
 				case 0:
@@ -237,6 +255,10 @@ func c10sweep(c *core.Ctx, first int) {
 					ev++
 					ps.PubWait(ev)
 					pub(ev)
+				case 8:
+					ps.PubSlice(nil)
+					ps.PubSliceWait([]int{})
+					ps.PubSliceSync(nil)
 				}
 			}
 			for i, s := range subs {
@@ -1144,6 +1166,30 @@ func c10withonly(c *core.Ctx, concurrentUnsub bool) {
 	}
 	target := r.Intn(n)
 	only := ps.WithOnly(subs[target].ch)
+	// half of the sequential scenarios: the parent changes between the WithOnly call and the
+	// publish (other subscriptions removed, new ones added); the clone still publishes to the
+	// one given subscription only
+	parentChanges := []string{}
+	if !concurrentUnsub && r.Bool() {
+		removed := map[int]bool{target: true}
+		for k := r.Range(1, 3); k > 0; k-- {
+			if j := r.Intn(len(subs)); r.Bool() && !removed[j] {
+				if err := ps.Unsub(subs[j].ch); err != nil {
+					c.Violate("Unsub:error", fmt.Sprintf("Unsub of subscriber %d (subscribed, another one was given to WithOnly before): %v", j, err), nil)
+					return
+				}
+				removed[j] = true
+				parentChanges = append(parentChanges, fmt.Sprintf("Unsub(subscriber %d)", j))
+			} else {
+				s := &psSub{release: make(chan struct{}), buf: r.Intn(3)}
+				s.ch = ps.SubBuf(s.buf)
+				run.startReceiver(s, r.Uint64())
+				subs = append(subs, s)
+				parentChanges = append(parentChanges, fmt.Sprintf("SubBuf(%d) = subscriber %d", s.buf, len(subs)-1))
+			}
+		}
+		c.Count("withonly_parent_changed_between_clone_and_publish", 1)
+	}
 	variant := r.Intn(6)
 	evs := []int{1000, 1001, 1002, 1003, 1004, 1005}[:r.Range(1, 6)]
 	var wg sync.WaitGroup
@@ -1158,7 +1204,7 @@ func c10withonly(c *core.Ctx, concurrentUnsub bool) {
 		ps.Unsub(subs[target].ch)
 	}
 	wg.Wait()
-	extra := map[string]any{"variant": psVariants[variant], "subscribers": n, "target": target, "parent_unsub_during_publish": concurrentUnsub}
+	extra := map[string]any{"variant": psVariants[variant], "subscribers": n, "target": target, "parent_unsub_during_publish": concurrentUnsub, "parent_changes_between_WithOnly_and_publish": parentChanges}
 	if !concurrentUnsub {
 		if isAsync(variant) {
 			waitUntil(func() bool { return subs[target].acks.Load() >= int64(len(evs)) }, 20*time.Second)
@@ -1178,7 +1224,7 @@ func c10withonly(c *core.Ctx, concurrentUnsub bool) {
 	c.Count("withonly_scenarios", 1)
 	for i, s := range subs {
 		if i != target && len(s.got) > 0 {
-			c.Violate("WithOnly:leaked-to-other-subscriber", fmt.Sprintf("subscriber %d received %v published through WithOnly(subscriber %d)", i, s.got, target), extra)
+			c.Violate("WithOnly:leaked-to-other-subscriber", fmt.Sprintf("subscriber %d received %v published through WithOnly(subscriber %d) (parent changed after the WithOnly call: %v)", i, s.got, target, parentChanges), extra)
 			return
 		}
 	}
